@@ -98,6 +98,8 @@ def gen(rng, count):
         model = ["const", "free", "wall", "pp", "coll", "factory"][k % 6]
         n = rng.choice([2, 3, 4, 5, 8, 15, 16, 31, 32, 64, 100, 127, 128])
         f0 = f32(rng.choice([9e6, 2.7e6, 1.2e6]))
+        if model == "pp" and k % 12 == 3:
+            f0 = f32(rng.choice([1.9e8, 9.5e7]))      # a small ring: bending radius c/(2 pi f0) of 0.25 m / 0.5 m
         fmax = f32(rng.choice([1e11, 4.5e11, 2e12]))
         gap = rng.choice([0.01, 0.032, 0.1])
         cid = "z%d" % k
